@@ -853,6 +853,7 @@ package zygo
 //@ C18 loop 0 invariant path-unchanged: forall(k, 0 <= k && k < len(dotpaths) ==> dotpaths[k] == old(dotpaths[k]))
 //@ C18 loop 0 invariant last-hop-returns: rangeindex < len(dotpaths) - 1 && !viaHash
 //@ C18 assert assign-only-public @before call mapstore[0]: isPublic(stripDot(curSym.name))
+//@ C18 assert lookups-do-not-write @before call LookupSymbol[*]: arg2 == nil
 //@ C18 assert hash-descent-only-public @before call nestedPathGetSet[0]: isPublic(stripDot(curSym.name))
 //@ C18 assert hash-walker-gets-remaining-path @before call nestedPathGetSet[0]: len(arg2) == len(dotpaths) - (i + 1) && sarr(arg2) == sarr(dotpaths) && soff(arg2) == soff(dotpaths) + (i + 1)
 //@ ghost viaHash := false @entry
